@@ -175,57 +175,6 @@ def run(ctx, rep):
 LOGICS = 'pytableaux.logics'
 
 
-def fold_meta_flags(m, lg, fn):
-    """LogicMetaMeta.__new__ folded for one logic's Meta facts -> the class object it returns (flags as attributes)."""
-    from ..minieval import Raised
-
-    class Values:
-        "the logic's value enum: callable by name, sized"
-        def __init__(self, names):
-            self.names = list(names)
-
-        def __call__(self, name):
-            if name not in self.names:
-                raise ValueError(name)
-            return ('VAL', name)
-
-        def __len__(self):
-            return len(self.names)
-
-        def __iter__(self):
-            return iter(('VAL', n) for n in self.names)
-
-    class Cat(dict):
-        def __getattr__(self, k):
-            try:
-                return self[k]
-            except KeyError:
-                raise AttributeError(k)
-    catdef = next((x for x in ast.walk(m.trees[LOGICS]) if isinstance(x, ast.ClassDef) and x.name == 'Category'), None)
-    if catdef is None:
-        raise AnalysisError('logics/__init__.py: the Category enum not found')
-    catnames = [st.targets[0].id for st in catdef.body if isinstance(st, ast.Assign) and isinstance(st.targets[0], ast.Name) and not st.targets[0].id.startswith('_')]
-    if len(catnames) < 2:
-        raise AnalysisError(f'LogicType.Meta.Category members not readable: {catnames}')
-    Category = Cat({n: ('CATEGORY', n) for n in catnames})
-    cls = Obj(f'{lg.short}.Meta', name=lg.name, __module__=lg.module, native_operators=tuple(lg.native_operators), modal_operators=('Possibility', 'Necessity'),
-              truth_functional_operators=tuple(lg.native_operators), values=Values([n for n, _ in lg.values]), designated_values=tuple(sorted(lg.designated)),
-              unassigned_value=lg.unassigned, modal=lg.modal, quantified=lg.quantified, Category=Category)
-    Self = Obj('LogicMetaMeta')
-    setattr(Self, '_LogicMetaMeta__modmap', {})
-    setattr(Self, '__modmap', getattr(Self, '_LogicMetaMeta__modmap'))
-    sup = Obj('super')
-    sup.__new__ = lambda *a, **k: cls
-    g = dict(super=lambda *a: sup, __package__=LOGICS, check=Obj('check', subcls=lambda c, t: c), LogicType=Obj('LogicType', Meta=object),
-             qsetf=tuple, EMPTY_SET=frozenset())
-    it = Interp(g, where='logics/__init__.py LogicMetaMeta.__new__', modtree=m.trees[LOGICS])
-    ns = dict(name=lg.name)
-    try:
-        return it.call(fn, [Self, 'Meta', (), ns])
-    except Raised as e:
-        raise AnalysisError(f'LogicMetaMeta.__new__ does not fold for {lg.short}: {e.text}')
-
-
 def r5(ctx, rep):
     m = ctx.m
     R5 = rep.rule('C20.R5', 'the flag the export branches on is the logic\'s value count: LogicMetaMeta.__new__ folded over every logic\'s Meta facts gives '
@@ -234,8 +183,7 @@ def r5(ctx, rep):
     rep.consult(m.loc(LOGICS, fn) + ' LogicMetaMeta.__new__')
     n = 0
     for lg in ctx.lgs:
-        cls = fold_meta_flags(m, lg, fn)
-        got = getattr(cls, 'many_valued', None)
+        got = lg.many_valued          # from the folded metaclass (sa.metafold through sa.logics)
         want = len(lg.values) != 2
         n += 1
         ok = got is want
